@@ -1,15 +1,210 @@
-"""Kani engine (filled in below)."""
+"""Kani engine: run proof harnesses that live in /verif/kani/*.rs and are compiled
+into the liwe crate through cfg(kani) hook lines in /repo (MANIFEST.hooks).
 
-GROUPS = {}
+A harness calls the REAL function and asserts the contract's postcondition in
+executable form.  Labels:
+  complete       loop-free, all inputs kani::any() over their full machine domain
+  fixed-size n   full-domain scalars, one container of fixed length n (complete for n, bounded over n)
+  bounded-shape  concrete node kinds / tree shapes with symbolic ids or flags (a bounded stand-in)
+Every harness carries #[kani::unwind]; unwinding-assertion failures and time-outs
+are 'undecided', never a violation.
+"""
+import os
+import re
+import shutil
+import subprocess
+import tempfile
+import time
+
+from . import config as C
+
+KANI_TARGET = os.path.join(C.BUILD, "kani")
+
+# group -> dict(harnesses=[(name, kind, repo function)], quick=[names], thorough=[names])
+GROUPS = {
+    "positions": {
+        "module": "markdown::reader::verif_kani",
+        "hook_file": "crates/liwe/src/markdown/reader.rs",
+        "repo": "crates/liwe/src/markdown/reader.rs (to_line_range, to_inline_range)",
+        "quick": ["line_range_n1", "inline_range_n1", "line_range_n2", "inline_range_n2", "line_range_n3", "inline_range_n3",
+                  "line_range_n4", "inline_range_n4", "line_range_n5", "inline_range_n5", "line_range_n6", "inline_range_n6"],
+        "thorough": ["line_range_n8", "inline_range_n8", "line_range_n10", "inline_range_n10", "line_range_n12", "inline_range_n12"],
+        "kind": "fixed-size n (n = digits in the harness name): table entries and offsets fully symbolic",
+    },
+}
+
+# Verus obligation -> kani group used to look for a counterexample / to decide when Verus is undecided
+TWINS = {}
+
+
+def _env():
+    e = dict(os.environ)
+    e["CARGO_NET_OFFLINE"] = "true"
+    e["CARGO_TARGET_DIR"] = KANI_TARGET
+    return e
+
+
+def hooks_present(repo, groups):
+    missing = []
+    for g in groups:
+        hf = os.path.join(repo, GROUPS[g]["hook_file"])
+        try:
+            txt = open(hf).read()
+        except OSError:
+            missing.append(GROUPS[g]["hook_file"])
+            continue
+        if "verif_kani" not in txt:
+            missing.append(GROUPS[g]["hook_file"])
+    return missing
+
+
+def run_harnesses(repo, names, timeout=1500, extra=()):
+    """Run the named harnesses in one cargo-kani invocation; return (results, cmd, raw)."""
+    cmd = ["cargo", "kani", "-p", "liwe", "-j", "8", "--output-format", "terse"]
+    for n in names:
+        cmd += ["--harness", n]
+    cmd += list(extra)
+    t0 = time.time()
+    try:
+        p = subprocess.run(["timeout", str(timeout)] + cmd, cwd=repo, env=_env(), capture_output=True, text=True)
+        out = p.stdout + "\n" + p.stderr
+        rc = p.returncode
+    except OSError as e:
+        out, rc = str(e), 127
+    wall = time.time() - t0
+    res = parse(out, names)
+    for r in res:
+        if r["status"] == "missing":
+            r["status"] = "undecided"
+            if rc == 124:
+                r["reason"] = "timed out after %ds" % timeout
+            else:
+                r["reason"] = "kani produced no verdict (exit %d): %s" % (rc, _tail_err(out))
+    return res, "cd %s && CARGO_NET_OFFLINE=true CARGO_TARGET_DIR=%s %s" % (repo, KANI_TARGET, " ".join(cmd)), out, wall
+
+
+def _tail_err(out):
+    lines = [l for l in out.split("\n") if l.startswith("error") or "error:" in l]
+    return " | ".join(lines[:3]) if lines else out[-400:].replace("\n", " ")
+
+
+def parse(out, names):
+    """Parse `--output-format terse` output, sequential or threaded (-j)."""
+    cur = {}          # thread id -> harness short name
+    found = {}
+    lines = out.split("\n")
+    i = 0
+    active = None     # harness whose result block we are inside
+    last_thread = None
+    for ln in lines:
+        m = re.match(r"^(?:Thread (\d+): )?Checking harness (\S+?)\.\.\.", ln)
+        if m:
+            t = m.group(1) or "0"
+            short = m.group(2).split("::")[-1]
+            cur[t] = short
+            found[short] = {"name": short, "full": m.group(2), "status": "missing", "failures": [],
+                            "time_s": None, "checks": None}
+            if m.group(1) is None:
+                active = short
+            continue
+        m = re.match(r"^Thread (\d+):\s*$", ln)
+        if m:
+            active = cur.get(m.group(1))
+            continue
+        if active is None or active not in found:
+            continue
+        r = found[active]
+        m = re.match(r"^\s*\*\* (\d+) of (\d+) failed", ln)
+        if m:
+            r["checks"] = int(m.group(2))
+            continue
+        m = re.match(r"^Failed Checks: (.*)$", ln)
+        if m:
+            r["failures"].append({"desc": m.group(1), "loc": ""})
+            continue
+        m = re.match(r"^\s*File: (.*)$", ln)
+        if m and r["failures"] and not r["failures"][-1]["loc"]:
+            r["failures"][-1]["loc"] = m.group(1)
+            continue
+        m = re.match(r"^VERIFICATION:- (SUCCESSFUL|FAILED)", ln)
+        if m:
+            if m.group(1) == "SUCCESSFUL":
+                r["status"] = "ok"
+            elif any("unwinding assertion" in f["desc"] for f in r["failures"]) or not r["failures"]:
+                r["status"] = "undecided"
+                r["reason"] = "unwinding bound too small or no failed check reported: %s" % r["failures"][:2]
+            else:
+                r["status"] = "failed"
+            continue
+        m = re.match(r"^Verification Time: ([0-9.]+)s", ln)
+        if m:
+            r["time_s"] = float(m.group(1))
+    return [found.get(n, {"name": n, "status": "missing", "failures": []}) for n in names]
 
 
 def run_groups(groups, tier, prop):
-    return {"harnesses": [], "cmds": [], "trusted": []}
+    repo = C.REPO
+    names = []
+    meta = {}
+    missing = hooks_present(repo, groups)
+    for g in groups:
+        G = GROUPS[g]
+        hs = list(G["quick"]) + (list(G.get("thorough", [])) if tier == "thorough" else [])
+        for h in hs:
+            meta[h] = G
+        names += hs
+    if missing:
+        return {"harnesses": [{"name": n, "status": "undecided", "reason": "hook line missing in %s" % missing,
+                               "failures": []} for n in names], "cmds": [], "trusted": []}
+    res, cmd, raw, wall = run_harnesses(repo, names)
+    os.makedirs(C.BUILD, exist_ok=True)
+    with open(os.path.join(C.BUILD, "kani_%s.log" % prop), "w") as f:
+        f.write(raw)
+    for r in res:
+        G = meta[r["name"]]
+        r["kind"] = G["kind"]
+        r["repo"] = G["repo"]
+        if r["status"] == "failed":
+            r["cex"] = playback(repo, r["name"])
+    return {"harnesses": res, "cmds": [cmd], "wall_s": wall,
+            "trusted": ["Kani 0.68 / CBMC 6.11; harness bounds as stated per harness (see kani/*.rs); "
+                        "payload strings of nodes are concrete in bounded-shape harnesses"]}
 
 
 def evidence(k):
-    return None
+    hs = k["harnesses"]
+    return {"harnesses": len(hs), "verified": sum(1 for h in hs if h["status"] == "ok"),
+            "cbmc_s": round(sum(h.get("time_s") or 0 for h in hs), 1), "wall_s": round(k.get("wall_s", 0), 1),
+            "list": [{"name": h["name"], "status": h["status"], "checks": h.get("checks"), "time_s": h.get("time_s"),
+                      "kind": h.get("kind")} for h in hs]}
+
+
+def playback(repo, harness):
+    """Ask Kani for the concrete counterexample of a failed harness and replay it natively on the real
+    code (scratch copy of the repository, removed afterwards)."""
+    out = {"found": False, "text": ""}
+    # print mode on the real tree (read-only for sources)
+    cmd = ["timeout", "900", "cargo", "kani", "-p", "liwe", "--harness", harness, "-Z", "concrete-playback",
+           "--concrete-playback=print", "--output-format", "terse"]
+    p = subprocess.run(cmd, cwd=repo, env=_env(), capture_output=True, text=True)
+    txt = p.stdout + p.stderr
+    m = re.search(r"```\n(.*?)```", txt, re.S)
+    if m:
+        out["found"] = True
+        out["text"] = ("harness %s fails; concrete values found by CBMC, as a unit test that calls the real code:\n%s\n"
+                       "replay: paste into the harness module and run `cargo kani playback -Z concrete-playback --test <name>`\n"
+                       % (harness, m.group(1)))
+    else:
+        out["text"] = "kani reported FAILED for %s but printed no concrete playback:\n%s" % (harness, txt[-1500:])
+    return out
 
 
 def counterexample_for(obligation, tier):
-    return None
+    g = TWINS.get(obligation)
+    if not g:
+        return None
+    res = run_groups([g], tier, "twin")
+    for h in res["harnesses"]:
+        if h["status"] == "failed" and h.get("cex"):
+            return h["cex"]
+    return {"found": False, "text": "twin harnesses %s: %s" % (g, [(h["name"], h["status"]) for h in res["harnesses"]])}
